@@ -1,3 +1,4 @@
+import XcmModel.TlsPolicy
 import XcmModel.Lemmas.Btls
 /-!
 # C09 — TLS never fails open (connection machine of xcm_tp_btls.c)
@@ -116,3 +117,227 @@ example : (tryFinishHandshake { auth := true } (.done .ok)).state = .ready ∧
           (tryFinishHandshake { auth := true } (.done .none)).state = .bad EPROTO := by decide
 
 end XcmModel.C09
+
+/-! ## the policy configuration: inheritance, overrides, invalid combinations, and what the configured verification decides -/
+namespace XcmModel.C09pol
+open XcmModel XcmModel.TlsPolicy
+
+theorem isSet_orDflt (s : Src) : isSet (orDflt s) = true := by
+  cases s <;> simp [orDflt, isSet]
+
+theorem finTc_spec (a : Bool) (tc : Src) (st : Bool) (tc' : Src) (h : finTc a tc st = some tc') : a = isSet tc' := by
+  unfold finTc at h
+  cases a <;> cases hs : isSet tc <;> cases st <;> simp [hs] at h <;> subst h <;>
+    first | rfl | exact hs.symm | exact (isSet_orDflt _).symm
+
+theorem finCrl_spec (a cc : Bool) (crl : Src) (st : Bool) (crl' : Src) (h : finCrl a cc crl st = some crl') :
+    cc = isSet crl' ∧ (cc = true → a = true) := by
+  unfold finCrl at h
+  cases a <;> cases cc <;> cases hs : isSet crl <;> cases st <;> simp [hs] at h <;> subst h <;>
+    first | exact ⟨rfl, fun x => by cases x⟩ | exact ⟨hs.symm, fun x => by cases x⟩ | exact ⟨(isSet_orDflt _).symm, fun _ => rfl⟩ | exact ⟨rfl, fun _ => rfl⟩ | exact ⟨hs.symm, fun _ => rfl⟩
+
+theorem finNames_spec (vn : Bool) (ns : Option (List String)) (st : Bool) (ns' : Option (List String))
+    (h : finNames vn ns st = some ns') : ns'.isSome = true → vn = true := by
+  unfold finNames at h
+  cases vn <;> cases hs : ns.isSome <;> cases st <;> simp [hs] at h <;> subst h <;> simp [hs]
+
+/-- a finalized configuration is consistent - exactly what the `ut_assert`s after `finalize_tls_conf` demand (they cannot
+fire) - and complete: certificate and key designated, trust anchors iff authentication, CRLs iff CRL checking, CRL
+checking only with authentication, expected names only with name verification; the switches are unchanged -/
+theorem C09_finalize_sound (c c' : Conf) (h : finalize c = some c') :
+    c'.auth = isSet c'.tc ∧ c'.checkCrl = isSet c'.crl ∧ isSet c'.cert = true ∧ isSet c'.key = true ∧
+    (c'.checkCrl = true → c'.auth = true) ∧ (c'.names.isSome = true → c'.verifyName = true) ∧
+    c'.auth = c.auth ∧ c'.checkCrl = c.checkCrl ∧ c'.checkTime = c.checkTime ∧ c'.verifyName = c.verifyName ∧
+    c'.tlsClient = c.tlsClient := by
+  unfold finalize at h
+  cases h1 : finTc c.auth c.tc c.tcSet with
+  | none => simp [h1] at h
+  | some tc =>
+    cases h2 : finCrl c.auth c.checkCrl c.crl c.crlSet with
+    | none => simp [h1, h2] at h
+    | some crl =>
+      cases h3 : finNames c.verifyName c.names c.namesSet with
+      | none => simp [h1, h2, h3] at h
+      | some names =>
+        simp only [h1, h2, h3, Option.some.injEq] at h
+        subst h
+        have a := finTc_spec _ _ _ _ h1
+        have b := finCrl_spec _ _ _ _ _ h2
+        have d := finNames_spec _ _ _ _ h3
+        exact ⟨a, b.1, isSet_orDflt _, isSet_orDflt _, b.2, d, rfl, rfl, rfl, rfl, rfl⟩
+
+/-- invalid combinations are refused (EINVAL): trusted CAs set explicitly without authentication, CRL checking without
+authentication, CRLs set explicitly without CRL checking, expected names set explicitly without name verification -/
+theorem C09_invalid_combinations_refused (c : Conf) :
+    (c.auth = false ∧ isSet c.tc = true ∧ c.tcSet = true → finalize c = none) ∧
+    (c.auth = false ∧ c.checkCrl = true → finalize c = none) ∧
+    (c.checkCrl = false ∧ isSet c.crl = true ∧ c.crlSet = true → finalize c = none) ∧
+    (c.verifyName = false ∧ c.names.isSome = true ∧ c.namesSet = true → finalize c = none) := by
+  refine ⟨fun h => ?_, fun h => ?_, fun h => ?_, fun h => ?_⟩
+  · have : finTc c.auth c.tc c.tcSet = none := by simp [finTc, h.1, h.2.1, h.2.2]
+    simp [finalize, this]
+  · have : finCrl c.auth c.checkCrl c.crl c.crlSet = none := by simp [finCrl, h.1, h.2]
+    unfold finalize; rw [this]; split <;> simp_all
+  · have : finCrl c.auth c.checkCrl c.crl c.crlSet = none := by
+      cases ha : c.auth <;> simp [finCrl, h.1, h.2.1, h.2.2]
+    unfold finalize; rw [this]; split <;> simp_all
+  · have : finNames c.verifyName c.names c.namesSet = none := by simp [finNames, h.1, h.2.1, h.2.2]
+    unfold finalize; rw [this]; split <;> simp_all
+
+/-- name verification without authentication, or without any name to compare with, is refused (EINVAL) -/
+theorem C09_name_verification_needs_auth_and_names (c : Conf) (a : Option String) (hv : c.verifyName = true) :
+    (c.auth = false → hostnameOk c a = none) ∧ (c.names = none → a = none → hostnameOk c a = none) := by
+  refine ⟨fun h => ?_, fun h1 h2 => ?_⟩
+  · simp only [hostnameOk, hv]
+    cases hn : c.names <;> cases a <;> simp [h]
+  · simp [hostnameOk, hv, h1, h2]
+
+theorem setAttrs_nil (c : Conf) : setAttrs c [] = c := rfl
+
+/-- policy attributes of a server socket govern its accepted connections unless overridden in xcm_accept_a: a switch
+that no accept attribute mentions has the server socket's value -/
+theorem C09_inherited_policy_governs (p : Conf) (as : List Attr) :
+    ((∀ b, Attr.auth b ∉ as) → (setAttrs (inherit p) as).auth = p.auth) ∧
+    ((∀ b, Attr.checkCrl b ∉ as) → (setAttrs (inherit p) as).checkCrl = p.checkCrl) ∧
+    ((∀ b, Attr.checkTime b ∉ as) → (setAttrs (inherit p) as).checkTime = p.checkTime) ∧
+    ((∀ b, Attr.verifyName b ∉ as) → (setAttrs (inherit p) as).verifyName = p.verifyName) ∧
+    ((∀ b, Attr.client b ∉ as) → (setAttrs (inherit p) as).tlsClient = p.tlsClient) ∧
+    ((∀ x, Attr.tc x ∉ as) → (setAttrs (inherit p) as).tc = p.tc ∧ (setAttrs (inherit p) as).tcSet = false) ∧
+    ((∀ x, Attr.names x ∉ as) → (setAttrs (inherit p) as).names = p.names) := by
+  have gen : ∀ (as : List Attr) (c : Conf),
+      ((∀ b, Attr.auth b ∉ as) → (setAttrs c as).auth = c.auth) ∧
+      ((∀ b, Attr.checkCrl b ∉ as) → (setAttrs c as).checkCrl = c.checkCrl) ∧
+      ((∀ b, Attr.checkTime b ∉ as) → (setAttrs c as).checkTime = c.checkTime) ∧
+      ((∀ b, Attr.verifyName b ∉ as) → (setAttrs c as).verifyName = c.verifyName) ∧
+      ((∀ b, Attr.client b ∉ as) → (setAttrs c as).tlsClient = c.tlsClient) ∧
+      ((∀ x, Attr.tc x ∉ as) → (setAttrs c as).tc = c.tc ∧ (setAttrs c as).tcSet = c.tcSet) ∧
+      ((∀ x, Attr.names x ∉ as) → (setAttrs c as).names = c.names) := by
+    intro as
+    induction as with
+    | nil => intro c; simp [setAttrs]
+    | cons a t ih =>
+      intro c
+      have h := ih (setAttr c a)
+      simp only [setAttrs, List.foldl_cons] at h ⊢
+      refine ⟨fun hn => ?_, fun hn => ?_, fun hn => ?_, fun hn => ?_, fun hn => ?_, fun hn => ?_, fun hn => ?_⟩
+      · rw [h.1 (fun b hb => hn b (List.mem_cons_of_mem _ hb))]
+        cases a <;> simp [setAttr]; rename_i b; exact absurd List.mem_cons_self (hn b)
+      · rw [h.2.1 (fun b hb => hn b (List.mem_cons_of_mem _ hb))]
+        cases a <;> simp [setAttr]; rename_i b; exact absurd List.mem_cons_self (hn b)
+      · rw [h.2.2.1 (fun b hb => hn b (List.mem_cons_of_mem _ hb))]
+        cases a <;> simp [setAttr]; rename_i b; exact absurd List.mem_cons_self (hn b)
+      · rw [h.2.2.2.1 (fun b hb => hn b (List.mem_cons_of_mem _ hb))]
+        cases a <;> simp [setAttr]; rename_i b; exact absurd List.mem_cons_self (hn b)
+      · rw [h.2.2.2.2.1 (fun b hb => hn b (List.mem_cons_of_mem _ hb))]
+        cases a <;> simp [setAttr]; rename_i b; exact absurd List.mem_cons_self (hn b)
+      · have := h.2.2.2.2.2.1 (fun b hb => hn b (List.mem_cons_of_mem _ hb))
+        rw [this.1, this.2]
+        cases a <;> simp [setAttr]; rename_i b; exact absurd List.mem_cons_self (hn b)
+      · rw [h.2.2.2.2.2.2 (fun b hb => hn b (List.mem_cons_of_mem _ hb))]
+        cases a <;> simp [setAttr]; rename_i b; exact absurd List.mem_cons_self (hn b)
+  have g := gen as (inherit p)
+  exact ⟨g.1, g.2.1, g.2.2.1, g.2.2.2.1, g.2.2.2.2.1, g.2.2.2.2.2.1, g.2.2.2.2.2.2⟩
+
+/-- with authentication on, a peer is accepted only if every configured check passes -/
+theorem C09_accepts_only_if_policy_met (c : Conf) (t : Trust) (p : Cred) (ha : c.auth = true) (h : accepts c t p = true) :
+    chainTrusted c t p = true ∧ (c.checkTime = true → p.validity = .ok) ∧ (c.checkCrl = true → crlOk t p = true) ∧
+    ekuOk c p = true ∧ nameOk c p = true := by
+  simp only [accepts, ha, Bool.not_true, Bool.false_eq_true, if_false, Bool.and_eq_true] at h
+  obtain ⟨⟨⟨⟨h1, h2⟩, h3⟩, h4⟩, h5⟩ := h
+  refine ⟨h1, fun ht => ?_, fun hc => ?_, h4, h5⟩
+  · simpa [ht] using h2
+  · simpa [hc] using h3
+
+/-- ... in particular: an untrusted issuer, an expired or not yet valid certificate (unless tls.check_time is off), a revoked
+leaf or intermediate or a missing CRL (when tls.check_crl is on), a key usage not permitting the peer's role and a name
+that is not expected (when tls.verify_peer_name is on) each lead to rejection -/
+theorem C09_each_failure_rejects (c : Conf) (t : Trust) (p : Cred) (ha : c.auth = true) :
+    (chainTrusted c t p = false → accepts c t p = false) ∧
+    (c.checkTime = true → p.validity ≠ .ok → accepts c t p = false) ∧
+    (c.checkCrl = true → crlOk t p = false → accepts c t p = false) ∧
+    (ekuOk c p = false → accepts c t p = false) ∧
+    (nameOk c p = false → accepts c t p = false) := by
+  refine ⟨fun h => ?_, fun h1 h2 => ?_, fun h1 h2 => ?_, fun h => ?_, fun h => ?_⟩ <;>
+    simp only [accepts, ha, Bool.not_true, Bool.false_eq_true, if_false]
+  · simp [h]
+  · cases hv : p.validity <;> simp_all
+  · simp [h1, h2]
+  · simp [h]
+  · simp [h]
+
+/-- revocation of the leaf or of an intermediate, and a missing CRL for any issuer, make `crlOk` false -/
+theorem C09_revocation_cases (t : Trust) (p : Cred) :
+    (t.revoked.contains p.leaf = true → crlOk t p = false) ∧
+    (∀ i, p.inter = some i → t.revoked.contains i = true → crlOk t p = false) ∧
+    (t.crlsFor.contains p.root = false → crlOk t p = false) ∧
+    (∀ i, p.inter = some i → t.crlsFor.contains i = false → crlOk t p = false) := by
+  refine ⟨fun h => ?_, fun i hi h => ?_, fun h => ?_, fun i hi h => ?_⟩
+  · unfold crlOk; cases p.inter <;> simp only [h, Bool.not_true, Bool.and_false, Bool.false_and]
+  · unfold crlOk; simp only [hi, h, Bool.not_true, Bool.and_false]
+  · unfold crlOk; cases p.inter <;> simp only [h, Bool.false_and]
+  · unfold crlOk; simp only [hi, h, Bool.and_false, Bool.false_and]
+
+theorem chainTrusted_crl_mono (c : Conf) (t : Trust) (p : Cred)
+    (h : chainTrusted { c with checkCrl := true } t p = true) : chainTrusted { c with checkCrl := false } t p = true := by
+  unfold chainTrusted at h ⊢
+  simp only [if_true, Bool.and_eq_true] at h
+  simp only [Bool.false_eq_true, if_false]
+  cases hi : p.inter with
+  | none => simp only [h.2, Bool.or_true]
+  | some i =>
+    simp only [hi] at h
+    simp only [h.1, h.2, Bool.or_true, Bool.and_true, Bool.true_and]
+
+theorem chainTrusted_indep (c : Conf) (t : Trust) (p : Cred) (c2 : Conf) (h : c2.checkCrl = c.checkCrl) :
+    chainTrusted c2 t p = chainTrusted c t p := by
+  unfold chainTrusted; rw [h]
+
+/-- switching a check on never makes a rejected peer acceptable -/
+theorem C09_checks_only_restrict (c : Conf) (t : Trust) (p : Cred) :
+    (accepts { c with checkTime := true } t p = true → accepts { c with checkTime := false } t p = true) ∧
+    (accepts { c with checkCrl := true } t p = true → accepts { c with checkCrl := false } t p = true) ∧
+    (accepts { c with verifyName := true } t p = true → accepts { c with verifyName := false } t p = true) ∧
+    (accepts { c with auth := true } t p = true → accepts { c with auth := false } t p = true) := by
+  refine ⟨fun h => ?_, fun h => ?_, fun h => ?_, fun _ => ?_⟩
+  · cases ha : c.auth
+    · simp [accepts, ha]
+    · have := C09_accepts_only_if_policy_met _ t p (by simpa using ha) h
+      simp only [accepts, ha, Bool.not_true, Bool.false_eq_true, if_false, Bool.and_eq_true, Bool.and_true]
+      refine ⟨⟨⟨?_, ?_⟩, this.2.2.2.1⟩, this.2.2.2.2⟩
+      · exact (chainTrusted_indep c t p _ rfl).trans ((chainTrusted_indep c t p _ rfl).symm.trans this.1)
+      · have := this.2.2.1
+        cases hc : c.checkCrl
+        · rfl
+        · exact this hc
+  · cases ha : c.auth
+    · simp [accepts, ha]
+    · have := C09_accepts_only_if_policy_met _ t p (by simpa using ha) h
+      simp only [accepts, ha, Bool.not_true, Bool.false_eq_true, if_false, Bool.and_eq_true, Bool.and_true]
+      refine ⟨⟨⟨chainTrusted_crl_mono c t p this.1, ?_⟩, this.2.2.2.1⟩, this.2.2.2.2⟩
+      have := this.2.1
+      cases hc : c.checkTime
+      · rfl
+      · simpa using this hc
+  · cases ha : c.auth
+    · simp [accepts, ha]
+    · have := C09_accepts_only_if_policy_met _ t p (by simpa using ha) h
+      simp only [accepts, ha, Bool.not_true, Bool.false_eq_true, if_false, Bool.and_eq_true]
+      refine ⟨⟨⟨⟨?_, ?_⟩, ?_⟩, this.2.2.2.1⟩, ?_⟩
+      · exact (chainTrusted_indep c t p _ rfl).trans ((chainTrusted_indep c t p _ rfl).symm.trans this.1)
+      · have := this.2.1
+        cases hc : c.checkTime
+        · rfl
+        · simpa using this hc
+      · have := this.2.2.1
+        cases hc : c.checkCrl
+        · rfl
+        · exact this hc
+      · simp [nameOk]
+  · simp [accepts]
+
+/-- non-vacuity: the standard credential is accepted under the default policy with its issuer trusted, and rejected
+as soon as the issuer is not -/
+example : accepts {} { cas := ["verif-rootA"] } { root := "verif-rootA", leaf := "a1", names := ["a1"] } = true ∧
+          accepts {} { cas := ["verif-rootB"] } { root := "verif-rootA", leaf := "a1", names := ["a1"] } = false := by decide
+
+end XcmModel.C09pol
